@@ -5,7 +5,8 @@ sys.path.insert(0, os.path.dirname(os.path.abspath(__file__)))
 import common
 import solvecheck
 
-THEOREMS = ["Pyvsc.C02.hard_sat_iff", "Pyvsc.C02.fails_iff_unsat", "Pyvsc.C02.no_internal_error", "Pyvsc.C02.lowered_welltyped"]
+THEOREMS = ["Pyvsc.C02.hard_sat_iff", "Pyvsc.C02.fails_iff_unsat", "Pyvsc.C02.no_internal_error", "Pyvsc.C02.lowered_welltyped",
+            "Pyvsc.C02.no_statement_dropped"]
 
 PROFILE = {"big": 0.03, "soft": 0.08, "maxstmts": 5, "depth": 1, "arops": ["add", "sub", "and", "or", "xor", "mul", "srl", "mod"]}
 
